@@ -1035,7 +1035,9 @@ func (w *world) run() {
 	w.calibrate()
 	// a service that cannot even be constructed and started dies here: that, too, is a witness (C19)
 	w.evIdx = -1
-	w.writePending(&Event{Kind: "start"})
+	if w.prop == "C19" {
+		w.writePending(&Event{Kind: "start"})
+	}
 	w.startServer()
 	synctest.Wait()
 
